@@ -21,7 +21,11 @@ int g_sinfo_freed;
 #define NB 3
 #endif
 #define MAXREC (2 * NB + 4)
-enum { R_NAME = 1, R_XL, R_XU, R_UL, R_END };
+#ifndef NANY
+#define NANY 4
+#endif
+enum { R_NAME = 1, R_XL, R_XU, R_UL, R_END, R_LL, R_BADKEY, R_BADFIELD };
+#define OBJ_IX 7	/* name index standing for the objective row's name: known to the name tables, but neither a column nor a constraint row */
 static int rec_kind[MAXREC], rec_col[MAXREC], rec_row[MAXREC], nrec;
 static char cn[NB][3], rn[NB][3];
 static char *colnames[NB], *rownames[NB];
@@ -82,6 +86,9 @@ int mpq_ILLmps_next_line(mpq_ILLread_mps_state *st)
 	else if (k == R_END) strcpy(st->key, "ENDATA");
 	else if (k == R_XL) set2(st->field, 'X', 'L');
 	else if (k == R_XU) set2(st->field, 'X', 'U');
+	else if (k == R_LL) set2(st->field, 'L', 'L');
+	else if (k == R_BADKEY) strcpy(st->key, "ROWS");
+	else if (k == R_BADFIELD) set2(st->field, 'Z', 'Z');
 	else set2(st->field, 'U', 'L');
 	rd_pos++;
 	return 0;
@@ -89,8 +96,8 @@ int mpq_ILLmps_next_line(mpq_ILLread_mps_state *st)
 int mpq_ILLmps_next_field(mpq_ILLread_mps_state *st)
 {
 	int k = spec_kind[rd_pos - 1];
-	if (rd_field == 0 && (k == R_XL || k == R_XU || k == R_UL)) { set2(st->field, 'c', (char) ('0' + spec_col[rd_pos - 1])); rd_field = 1; return 0; }
-	if (rd_field == 1 && (k == R_XL || k == R_XU)) { set2(st->field, 'r', (char) ('0' + spec_row[rd_pos - 1])); rd_field = 2; return 0; }
+	if (rd_field == 0 && (k == R_XL || k == R_XU || k == R_UL || k == R_LL) && spec_col[rd_pos - 1] >= 0) { if (spec_col[rd_pos - 1] == OBJ_IX) set2(st->field, 'o', 'b'); else set2(st->field, 'c', (char) ('0' + spec_col[rd_pos - 1])); rd_field = 1; return 0; }
+	if (rd_field == 1 && (k == R_XL || k == R_XU) && spec_row[rd_pos - 1] >= 0) { if (spec_row[rd_pos - 1] == OBJ_IX) set2(st->field, 'o', 'b'); else set2(st->field, 'r', (char) ('0' + spec_row[rd_pos - 1])); rd_field = 2; return 0; }
 	st->field[0] = 0; return 1;
 }
 int mpq_ILLmps_empty_key(mpq_ILLread_mps_state *st) { return st->key[0] == 0; }
@@ -102,6 +109,8 @@ char *ILLutil_str(const char *s) { char *r = malloc(3); if (r) { r[0] = s[0]; r[
 static mpq_ILLlpdata *gO;
 int mpq_ILLlib_colindex(mpq_lpinfo *lp, const char *name, int *idx) { int j = col_of(name); *idx = (j >= 0 && j < gO->nstruct) ? j : -1; return 0; }
 int mpq_ILLlib_rowindex(mpq_lpinfo *lp, const char *name, int *idx) { int j = row_of(name); *idx = (j >= 0 && j < gO->nrows) ? j : -1; return 0; }
+/* name-table membership (not used by the reader today): the tables know every column / row name AND the objective row's name (index -1) */
+int ILLsymboltab_contains(ILLsymboltab *h, const char *s) { int j = s[0] == 'c' ? col_of(s) : row_of(s); if (s[0] == 'o' && s[1] == 'b') return 1; return j >= 0 && j < (s[0] == 'c' ? gO->nstruct : gO->nrows); }
 #endif
 
 void harness(void)
@@ -152,8 +161,32 @@ void harness(void)
 			}
 		}
 	}
+#elif defined(FN_read_any)
+	{	/* C11: ANY record sequence (wrong order, repeated / missing NAME, unknown keys and record types, missing fields, names that are
+		 * not in the LP, the objective row's name where a column or row is expected): clean failure or a well-formed basis */
+		gO = O;
+		O->structmap = qsv_alloc(sizeof(int) * (size_t) ns); O->lower = qsv_numarray(2 * NB); O->upper = qsv_numarray(2 * NB);
+		for (i = 0; i < 2 * NB; i++) { qsv_setnum(O->lower[i], nondet_bool() ? -QSV_INF : 0); qsv_setnum(O->upper[i], nondet_bool() ? QSV_INF : 5); }
+		for (i = 0; i < NB; i++) if (i < ns) { O->structmap[i] = pick(0, 2 * NB - 1); ASSUME(O->structmap[i] < ns + nr); }
+		nspec = pick(0, NANY); spec_fail = 0;
+		for (i = 0; i < NANY; i++) { spec_kind[i] = pick(R_NAME, R_BADFIELD); spec_col[i] = pick(-1, 6) ; spec_row[i] = pick(-1, 6); if (spec_col[i] == 6) spec_col[i] = OBJ_IX; if (spec_row[i] == 6) spec_row[i] = OBJ_IX; }
+		B.cstat = 0; B.rstat = 0;
+		rv = mpq_ILLlib_readbasis(lp, &B, "f");
+		if (rv == 0) {
+			ASSERT(B.nstruct == ns && B.nrows == nr && B.cstat != 0 && B.rstat != 0, "C11: an accepted basis file gives a basis of the problem's dimensions");
+			for (i = 0; i < NB; i++) if (i < ns) ASSERT(B.cstat[i] >= QS_COL_BSTAT_LOWER && B.cstat[i] <= QS_COL_BSTAT_FREE, "C11: every column status of an accepted basis file is a status code");
+			for (i = 0; i < NB; i++) if (i < nr) ASSERT(B.rstat[i] >= QS_ROW_BSTAT_LOWER && B.rstat[i] <= QS_ROW_BSTAT_UPPER, "C11: every row status of an accepted basis file is a status code");
+			COVER_MUST(nspec >= 3, "accepted_with_records");
+			free(B.cstat); free(B.rstat);
+		} else {
+			ASSERT(B.cstat == 0 && B.rstat == 0, "C11/C18: a rejected basis file leaves no half-built basis behind");
+			COVER_MUST(nspec >= 2, "rejected");
+		}
+		/* release what the harness built, so that anything still allocated was left behind by the reader (C18) */
+		free(((size_t *) O->lower) - 1); free(((size_t *) O->upper) - 1); free(O->structmap); free(O); free(lp);
+	}
 #else
-#error "select FN_write or FN_read"
+#error "select FN_write, FN_read or FN_read_any"
 #endif
 	REACH_END();
 }
